@@ -76,7 +76,11 @@ class CallMixin:
                 a = list(args)
                 if f.self_val is not None:
                     a = [f.self_val] + a
-                return self.call_repo(f.info, a, kwargs, st, k, self_val=f.self_val)
+                self._direct_call = (f.extra == "direct")
+                try:
+                    return self.call_repo(f.info, a, kwargs, st, k, self_val=f.self_val)
+                finally:
+                    self._direct_call = False
             if f.kind == "builtin":
                 return self.call_builtin(f.name, args, kwargs, st, k, f)
             if f.kind == "bound_builtin":
@@ -208,20 +212,24 @@ class CallMixin:
     def call_repo(self, info, args, kwargs, st, k, self_val=None, closure=None):
         """call a function defined in the repo: via contract when it has one, else inline"""
         bound = self.bind_params(info, args, kwargs, st, closure)
+        direct = getattr(self, "_direct_call", False)
+        self._direct_call = False
         if info.is_async or info.has_yield:
             kind = "asyncgen" if info.is_asyncgen else ("coro" if info.is_async else "gen")
-            return k(CoroVal(info, bound, closure, kind, self.defining_class(info)), st)
-        return self.run_function(info, bound, st, k, closure)
+            co = CoroVal(info, bound, closure, kind, self.defining_class(info))
+            co.direct = direct
+            return k(co, st)
+        return self.run_function(info, bound, st, k, closure, direct=direct)
 
     def contract_for(self, info, bound=None):
         c = self.reg.contracts.get(info.fqn)
         return c
 
-    def run_function(self, info, bound, st, k, closure=None, force_inline=False):
+    def run_function(self, info, bound, st, k, closure=None, force_inline=False, direct=False):
         """execute a synchronous function (or the body of a started coroutine/generator)"""
         c = self.contract_for(info, bound)
         if c is not None and not force_inline and not c.inline and info is not self.cur_func_inline_guard():
-            return self.apply_contract(c, info, bound, st, k)
+            return self.apply_contract(c, info, bound, st, k, direct=direct)
         if c is None:
             self.inlined.add(info.fqn)
         if st.depth > MAX_INLINE_DEPTH:
